@@ -85,10 +85,15 @@ class Harness:
 
         def guard(fn):
             def wrapped(*a, **k):
-                if h.kill_at is not None and h.writes == h.kill_at:
+                # kill_at = k >= 0: killed when write k+1 is about to start (the latest point of the gap after write k);
+                # kill_at = -k < 0: killed as soon as write k has completed (the earliest point of the same gap)
+                if h.kill_at is not None and h.kill_at >= 0 and h.writes == h.kill_at:
                     raise Kill()
                 h.writes += 1
-                return fn(*a, **k)
+                r = fn(*a, **k)
+                if h.kill_at is not None and h.kill_at < 0 and h.writes == -h.kill_at:
+                    raise Kill()
+                return r
             return wrapped
         PL = layout.PageLayout
         for name in ('to_pagexml', 'save_logits', 'to_altoxml'):
@@ -250,11 +255,13 @@ def plans(thorough):
         out.append((ids, ks, ()))
         for k1 in range(n + 1):
             out.append((ids, ks, (k1,)))
+            if k1 >= 1:
+                out.append((ids, ks, (-k1,)))        # the same gap, killed at its earliest point
         if thorough or len(ks) >= 3:
             step = 1 if (thorough and len(ks) <= 3) else 3
             for k1 in range(0, n + 1, step):
                 for k2 in range(0, n + 1, step + 1):
-                    out.append((ids, ks, (k1, k2)))
+                    out.append((ids, ks, (k1, k2) if (k1 + k2) % 2 == 0 else (-k1, k2)))
         if thorough and len(ks) in (2, 5):
             for k1, k2, k3 in itertools.product(range(0, n + 1, 4), repeat=3):
                 out.append((ids, ks, (k1, k2, k3)))
@@ -337,7 +344,7 @@ def run(ctx):
         seen.add(s)
         fails.append(Failure(s, 'resume contract %s fails: %s on %s' % (f['clause'], f['observed'], f['input']), function='parse_folder.main',
                              input=f['input'], observed=f['observed'], clause=f['clause']))
-    ctx.add_bounded('crash-points', 'page ids %r; output subsets %s; a kill before every write position, 1..%d successive crashes (strided for >1)' % (IDS_T if thorough else IDS_Q, 'all 31' if thorough else '8 representative', 3 if thorough else 2),
+    ctx.add_bounded('crash-points', 'page ids %r; output subsets %s; a kill in every gap between two writes (both when the next write is about to start and as soon as the previous one has completed: negative positions), 1..%d successive crashes (strided for >1)' % (IDS_T if thorough else IDS_Q, 'all 31' if thorough else '8 representative', 3 if thorough else 2),
                     res['evaluations'], res['nontrivial'], thorough, res['samples'], fails,
                     rule='every plan (output subset, kill positions) of the stated grid; non-trivial = at least one crash',
                     clause='final tree equals uninterrupted tree; complete pages not reprocessed; clean exit')
